@@ -80,6 +80,10 @@ def big_graphs(ctx, medium=False):
     out.append(("chain", [[i + 1] for i in range(L - 1)] + [[L - 1]], [L - 1]))
     out.append(("ladder", [[i + 1, i + 2] if i + 2 < L else [L - 1] for i in range(L)], [L - 1, 0][:1]))
     out.append(("back-chain", [[0]] + [[i] for i in range(L - 1)], [0]))
+    if not medium:
+        # "graphs of any size and depth": a corridor far deeper than any recursion limit one might set by hand
+        D = 30000
+        out.append(("deep-chain", [[i + 1] for i in range(D - 1)] + [[D - 1]], [D - 1]))
     # a tall board as the generator lays it out (game A, 3 columns)
     rows = 16 if medium else (60 if ctx.quick else 200)
     W = 3
